@@ -342,11 +342,12 @@ func (w *Writer) WriteCSM(csm io.ColumnSeriesMap, isVariableLength bool) error {
 			}
 		}
 
-		rs, err := cs.ToRowSeries(tbk, alignData)
+		// The columns were matched to the bucket's columns by name, so the rows have to be
+		// laid out in the bucket's column order, not in the order the request lists them.
+		rowData, _, err := io.SerializeColumnsToRows(cs, dbDSV, alignData)
 		if err != nil {
-			return fmt.Errorf("convert column series to row series. tbk=%s: %w", tbk, err)
+			return fmt.Errorf("convert column series to rows. tbk=%s: %w", tbk, err)
 		}
-		rowData := rs.GetData()
 		err = w.WriteRecords(times, rowData, dbDSV, tbi)
 		if err != nil {
 			return fmt.Errorf("write records to %v: %w", tbi, err)
